@@ -548,8 +548,16 @@ def children_table(ctx, gx):
                                 exported, queried, term_str(r)[:80]))
                     if not f2:
                         continue
+                    # the name is recorded: appended to a list, added to a
+                    # set, or entered as a key of a dict kept as ordered set
                     apps = [e for e in bp.trace if e[0] == 'mutate' and
-                            e[2] == 'append']
+                            e[2] in ('append', 'add')]
+                    keyed = [e for e in bp.trace if e[0] == 'setsub' and
+                             not contains(e[1], lambda x: kind(x) in (
+                                 'param', 'attr'))]
+                    if keyed and not apps:
+                        apps = [('mutate', keyed[-1][1], 'append',
+                                 (keyed[-1][2],))]
                     if apps:
                         v = subst_fold(apps[-1][3][0], mapping)
                         got.add(v[1] if is_const(v) else term_str(v)[:40])
@@ -667,6 +675,28 @@ def children_once(ctx, gx):
                            for c, pol in bp.cond):
                         n_guarded += 1
         break
+    # a dict (or set) kept as the list of names cannot hold a name twice
+    as_keys = False
+    for n in prog._iter_scope(gx.node):
+        if isinstance(n, ast.Assign) and len(n.targets) == 1 and \
+                isinstance(n.targets[0], ast.Name) and \
+                n.targets[0].id == name and (
+                    (isinstance(n.value, ast.Dict) and not n.value.keys) or
+                    (isinstance(n.value, ast.Call) and
+                     isinstance(n.value.func, ast.Name) and
+                     n.value.func.id in ('dict', 'set', 'OrderedDict') and
+                     not n.value.args and not n.value.keywords)):
+            as_keys = True
+    if as_keys and not any(
+            isinstance(n, ast.Assign) and any(
+                isinstance(t, ast.Name) and t.id == name for t in n.targets)
+            and not (isinstance(n.value, ast.Dict) or
+                     isinstance(n.value, ast.Call))
+            for n in prog._iter_scope(gx.node)):
+        ctx.ob('C16.D4', gx.qualname, 'children-listed-once', True,
+               'every immediate child must be listed once; the names are the '
+               'keys of a dict / members of a set')
+        return
     if n_app and n_app == n_guarded:
         ctx.ob('C16.D4', gx.qualname, 'children-listed-once', True,
                'every immediate child must be listed once however many '
